@@ -39,7 +39,7 @@ def check_dump(pc, entry, mi, L, vals, img, size, modes, inflated):
     M = entry.model
     exp = expected_dumps(M, L, vals, size)
     hx = img.hex() or "-"
-    for cfg in entry.status["configs"]:
+    for cfg in entry.value_configs():
         for mode in modes:
             resp = pc.call(entry, cfg, "dump %d %s %s" % (mi, mode, hx))
             pc.res.count()
@@ -126,7 +126,7 @@ def run(prop, t, budget, inflate, extra_part=None):
             exp = c05.expected_sizes(M, L, vals, size)
             if not cursor_end_checkable(L):
                 exp = [x for x in exp if not x.startswith("cursor_size=")]
-            for cfg in entry.status["configs"]:
+            for cfg in entry.value_configs():
                 resp = pc.call(entry, cfg, "sizes %d %s" % (mi, img.hex()))
                 res.count()
                 got = resp[3:].split() if resp.startswith("OK ") else None
